@@ -1,3 +1,4 @@
 //! Shared harness glue between the explorer binaries and lexical's public API.
 pub mod common;
 pub mod floatfam;
+pub mod valfam;
